@@ -143,3 +143,60 @@ contract(
     name="print_biomolecule_atoms.induction",
     native=False,
 )
+
+
+# ---------------------------------------------------------------- remove_hydrogens: hydrogens only, of biopolymer residues only
+# Before PROPKA sees the structure (C06) every hydrogen of the amino-acid / nucleotide residues is taken off - also several
+# in a row (the list is copied before it is walked) - and nothing else: heavy atoms stay, in order, where they were, with
+# their bonds to other heavy atoms; waters and hetero groups keep their hydrogens (they are not rebuilt later).
+def BATOM(nm, name, bonds=()):
+    return Named(nm, Obj("pdb2pqr.structures:Atom", name=Const(name), x=Real, y=Real, z=Real, bonds=Items(*[Ref(b) for b in bonds])))
+
+
+contract(
+    "pdb2pqr.biomolecule:Biomolecule.remove_hydrogens", ["C03", "C06"],
+    params={"self": Obj("pdb2pqr.biomolecule:Biomolecule", residues=Items(
+        Named("gly", Obj("pdb2pqr.aa:GLY", name=Const("GLY"),
+                         atoms=Items(Ref("g_n"), Ref("g_h"), Ref("g_ca"), Ref("g_ha2"), Ref("g_ha3"), Ref("g_c")),
+                         map=DictOf(("N", BATOM("g_n", "N", ["g_h", "g_ca"])), ("H", BATOM("g_h", "H", ["g_n"])),
+                                    ("CA", BATOM("g_ca", "CA", ["g_n", "g_ha2", "g_ha3", "g_c"])),
+                                    ("HA2", BATOM("g_ha2", "HA2", ["g_ca"])), ("HA3", BATOM("g_ha3", "HA3", ["g_ca"])),
+                                    ("C", BATOM("g_c", "C", ["g_ca"]))))),
+        Named("wat", Obj("pdb2pqr.aa:WAT", name=Const("HOH"), atoms=Items(Ref("w_o"), Ref("w_h1")),
+                         map=DictOf(("O", BATOM("w_o", "O", ["w_h1"])), ("H1", BATOM("w_h1", "H1", ["w_o"]))))),
+        Named("lig", Obj("pdb2pqr.residue:Residue", name=Const("LIG"), atoms=Items(Ref("l_c"), Ref("l_h")),
+                         map=DictOf(("C1", BATOM("l_c", "C1", ["l_h"])), ("H1", BATOM("l_h", "H1", ["l_c"]))))),
+        Named("ade", Obj("pdb2pqr.na:ADE", name=Const("DA"), atoms=Items(Ref("a_h"), Ref("a_p"), Ref("a_h2")),
+                         map=DictOf(("H5T", BATOM("a_h", "H5T", ["a_p"])), ("P", BATOM("a_p", "P", ["a_h", "a_h2"])),
+                                    ("H2", BATOM("a_h2", "H2", ["a_p"])))))))},
+    requires=[],
+    ensures=[
+        "len(gly.atoms) == 3 and gly.atoms[0] is g_n and gly.atoms[1] is g_ca and gly.atoms[2] is g_c",
+        "len(gly.map) == 3 and forall(gly.atoms, lambda a: gly.map[a.name] is a)",
+        "len(ade.atoms) == 1 and ade.atoms[0] is a_p and len(ade.map) == 1 and len(a_p.bonds) == 0",
+        # heavy atoms keep their bonds to heavy atoms and lose the ones to the removed hydrogens
+        "len(g_n.bonds) == 1 and g_n.bonds[0] is g_ca and len(g_ca.bonds) == 2 and g_ca.bonds[0] is g_n and g_ca.bonds[1] is g_c",
+    ],
+    # frame: nothing of the water and the hetero group, and no coordinate anywhere, is written
+    modifies=["gly.atoms.*", "gly.map.*", "ade.atoms.*", "ade.map.*", "g_n.bonds.*", "g_ca.bonds.*", "a_p.bonds.*"],
+    name="remove_hydrogens", native=False,
+)
+
+
+# ---------------------------------------------------------------- set_states: every biopolymer residue, once
+contract(
+    "pdb2pqr.biomolecule:Biomolecule.set_states", ["C01", "C02"],
+    params={"self": Obj("pdb2pqr.biomolecule:Biomolecule", residues=Items(
+        Named("r_aa", Obj("pdb2pqr.aa:HIS", name=Const("HIS"))), Named("r_w", Obj("pdb2pqr.aa:WAT", name=Const("HOH"))),
+        Named("r_na", Obj("pdb2pqr.na:ADE", name=Const("DA"))), Named("r_x", Obj("pdb2pqr.residue:Residue", name=Const("LIG"))),
+        Named("r_aa2", Obj("pdb2pqr.aa:GLY", name=Const("GLY")))))},
+    requires=[],
+    ensures=[
+        "len(calls()) == 3",
+        "calls()[0].args['self'] is r_aa and calls()[1].args['self'] is r_na and calls()[2].args['self'] is r_aa2",
+    ],
+    trace={"pdb2pqr.aa:HIS.set_state": None, "pdb2pqr.aa:Amino.set_state": None, "pdb2pqr.na:Nucleic.set_state": None,
+           "pdb2pqr.aa:GLY.set_state": None, "pdb2pqr.na:ADE.set_state": None},
+    modifies=[],
+    name="set_states", native=False,
+)
